@@ -49,6 +49,7 @@ def main(argv):
     from pyvc import run as pyrun
     from pyvc import unit as U
 
+    os.environ["VERIF_TIER"] = tier
     timeout_ms = 10000 if tier == "quick" else 60000
     broken = []
     try:
